@@ -35,8 +35,9 @@ ASSUMPTIONS = [
     "the compared quantity; the imaginary part is bounded relative to the largest |Re| of the same field",
     "the two runs are not bit-identical (Re differs by ~5e-16 / 2e-7 of max|F|), and such round-off travels with the "
     "wave: Field/Phasor records use scale = max(max|record|, rho*max|F| over the whole domain and all steps), "
-    "Energy/Poynting records are compared only where the local field reaches rho*max|F| (rho = 1e-3 f64 / 0.1 f32), "
-    "reduced Poynting sums are scaled by their cancellation factor from an unreduced twin detector",
+    "rho = 1e-3 f64 / 0.1 f32; Energy/Poynting records (products of fields, absolute noise eps*max|F|*(|E|+|H|)) are "
+    "compared only when their raw per-cell values reach rho_q^2*max|F|^2, rho_q = 0.03 f64 / 0.3 f32 (unreduced twin "
+    "detector for reduced records); reduced Poynting sums are scaled by their cancellation factor from that twin",
     "initial fields, when present, are real and identical in both runs (cast to the storage dtype)",
 ]
 
@@ -199,15 +200,16 @@ def _with_aux(spec):
     """Auxiliary detectors (identical in both runs) that only put a scale on round-off:
     `__all` = raw fields of the whole domain at every step (round-off made where the field is large travels with
     the wave, so the noise floor in a quiet corner is eps*max|F| in absolute terms); an unreduced twin of every
-    reduced Poynting detector (cancellation factor of the reduced sum)."""
+    reduced Energy/Poynting detector (raw per-cell values: noise criterion, cancellation factor of a flux sum)."""
     sc = copy.deepcopy(spec)
     sc["detectors"].append({"type": "field", "name": ALL, "exact": False, "switch": {}, "lo": [0, 0, 0],
                             "hi": list(spec["shape"]), "reduce": False,
                             "components": ["Ex", "Ey", "Ez", "Hx", "Hy", "Hz"]})
     for d in spec["detectors"]:
-        if d["type"] == "poynting" and d.get("reduce"):
+        if d["type"] in ("poynting", "energy") and d.get("reduce"):
             t = copy.deepcopy(d)
             t.update(name=d["name"] + TWIN, reduce=False)
+            t.pop("as_slices", None)
             sc["detectors"].append(t)
     return sc
 
@@ -269,11 +271,16 @@ def body(ctx, case):
     allr = recr[ALL]["fields"]
     fmax = max(_amax(allr), _amax(recc[ALL]["fields"]), 1e-300)
 
-    def quiet(d):
-        region = (slice(None), slice(None), *(slice(max(lo - 1, 0), hi + 1) for lo, hi in zip(d["lo"], d["hi"])))
-        return _amax(allr[region]) < rho * fmax
+    rho_q = ctx.tol(0.03, 0.3)  # quadratic records: compared when max|raw record| >= rho_q^2 * max|F|^2
 
-    quad_live = any(_amax(v) > 0 and not quiet(by_name[n]) for n, t in dets.items() if t in QUAD for v in recr[n].values())
+    def below_noise(name, key):
+        """A product of fields carries the absolute noise eps*max|F|*(|E|+|H|); below rho_q^2*max|F|^2 its relative
+        noise exceeds the stated tolerance (seen: S = 1e-26 from components of 1e-13 next to a dipole of 0.1,
+        relative difference between the two runs 2e-5).  Raw = per-cell values (unreduced twin for reduced records)."""
+        raw = recr[name + TWIN][key] if name + TWIN in recr else recr[name][key]
+        return _amax(raw) < rho_q * rho_q * fmax * fmax
+
+    quad_live = any(not below_noise(n, k) for n, t in dets.items() if t in QUAD for k in recr[n])
     if max(_amax(Er), _amax(Hr)) == 0.0:
         raise Skip()
     ctx.classify("tfsf-on" if tfsf_on else "tfsf-off", "quad-live" if quad_live else "quad-zero")
@@ -303,9 +310,8 @@ def body(ctx, case):
             if typ in ("field", "phasor"):
                 big = max(big, (2.0 if typ == "phasor" else 1.0) * rho * fmax)
             else:
-                if quiet(d):
-                    # relative noise of a quadratic record is 2*eps*max|F|/|F_local|: outside the stated tolerance
-                    ctx.classify("quadratic-in-quiet-region-not-checked")
+                if below_noise(name, key):
+                    ctx.classify("quadratic-below-noise-not-checked")
                     continue
                 if typ == "poynting" and d.get("reduce"):
                     tw = recr[name + TWIN][key].astype(np.float64)
